@@ -323,6 +323,9 @@ func (e *Exec) eqStr(x, y Str) *Term {
 	if x.arr == y.arr && x.off == y.off && x.len == y.len {
 		return tb.True()
 	}
+	if x.minrep != nil && y.minrep != nil {
+		return tb.Eq(x.minrep, y.minrep)
+	}
 	r := tb.Eq(x.len, y.len)
 	if r.IsFalse() {
 		return r
